@@ -13,7 +13,7 @@
 (***************************************************************************)
 EXTENDS Integers, Sequences, FiniteSets, TLC
 
-CONSTANTS Kinds,        \* request kinds: "static", "dynamic", "optional" (a dynamic route without variables), "notfound", "notallowed", "panic", "panichook", "foreign"
+CONSTANTS Kinds,        \* request kinds: "static", "dynamic", "optional" (a dynamic route without variables), "render" (a static route that renders a template), "notfound", "notallowed", "panic", "panichook", "foreign"
           Mutations,    \* what the handlers of a request do to their context (a request performs a subset)
           MaxPool,
           D_KeepParams, D_KeepData, D_KeepErrors, D_KeepIndex, D_KeepWriter, D_KeepResp, D_KeepReq    \* a field Init/Reset forgets
@@ -45,7 +45,7 @@ InitCtx(c, viaServeHTTP) ==
 
 \* what the dispatcher itself stores before the first handler runs
 Dispatched(c, kind) == [c EXCEPT !.params = IF kind = "dynamic" THEN "own" ELSE c.params,
-                                 !.data = CASE kind \in {"static", "dynamic", "optional", "panic", "panichook", "foreign"} -> {"_route"}
+                                 !.data = CASE kind \in {"static", "dynamic", "optional", "render", "panic", "panichook", "foreign"} -> {"_route"}
                                             [] kind = "notallowed" -> {"_allowed"}
                                             [] OTHER -> c.data]
 Pristine(kind) == Dispatched(Fresh, kind)
